@@ -33,7 +33,7 @@ SeqToSet(s) == {s[i] : i \in 1..Len(s)}
    claims), which is the same value and keeps 200-permanode worlds cheap. *)
 PnItems(W) == {c \in W : c.kind = "permanode"}
 About(W, p) == {c \in W : (c.kind = "claim" /\ c.pn = p.id) \/ c.kind = "delete"}
-Info(W, vt, tagval, p) ==
+Info(W, vt, tagval, tagattr, p) ==
    LET Wp == About(W, p)
        mod == C!ModTime(Wp, p.id)
        dc == CHOOSE v \in C!AttrValues(Wp, p.id, "dateCreated", C!Zero, 0) : TRUE
@@ -41,7 +41,7 @@ Info(W, vt, tagval, p) ==
        listed |-> ~C!Deleted(Wp, p.id) /\ mod # C!Zero,            \* what a sorted source enumerates
        mod |-> mod,
        created |-> IF dc # <<>> THEN <<vt[dc[1]][1], vt[dc[1]][2]>> ELSE mod,
-       tag |-> \E v \in C!AttrValues(Wp, p.id, "tag", C!Zero, 1) : tagval \in SeqToSet(v)]
+       tag |-> \E v \in C!AttrValues(Wp, p.id, tagattr, C!Zero, 1) : tagval \in SeqToSet(v)]
 
 CC(cons) == IF cons = "any" THEN "any" ELSE "tag"          \* "tag" and "and"(any, tag) match the same permanodes
 P(cons) == IF cons = "any" THEN pAny ELSE pTag
@@ -85,7 +85,7 @@ TInit == /\ l = 1 /\ world = {} /\ cur = [cls |-> ""] /\ keyM = <<>> /\ keyC = <
 
 TWorld == /\ l <= Len(Trace) /\ Ev.ev = "world"
           /\ world' = SeqToSet(Ev.items)
-          /\ info' = {i \in {Info(world', Ev.vtimes, Ev.tagval, p) : p \in PnItems(world')} : i.listed}
+          /\ info' = {i \in {Info(world', Ev.vtimes, Ev.tagval, Ev.tagattr, p) : p \in PnItems(world')} : i.listed}
           /\ pAny' = {i.rank : i \in info'}
           /\ pTag' = {i.rank : i \in {i \in info' : i.tag}}
           /\ keyM' = [r \in pAny' |-> (CHOOSE i \in info' : i.rank = r).mod]
